@@ -869,16 +869,17 @@ Definition rslv_cancel (r : Z) (w : net) : net * list kc :=
 
 (* internal completion handlers of the composed operations on socket s *)
 (* internal completion handlers: -(1000 + 4x + kind); kind 0 composed write on
-   socket x, 1 composed read on socket x, 2 application callback x = 64*app + k,
+   operation x, 1 composed read operation x, 2 application callback x = 64*app + k,
    3 script handler x that is also given the bytes read *)
-Definition hid_wall (s : Z) : Z := - (1000 + 4 * s).
-Definition hid_rall (s : Z) : Z := - (1001 + 4 * s).
+Definition hid_wall (op : Z) : Z := - (1000 + 4 * op).
+Definition hid_rall (op : Z) : Z := - (1001 + 4 * op).
 Definition hid_raw (h s bufsize : Z) (loop : bool) : Z := - (1003 + 4 * ((((h * 4096) + s) * 1048576 + bufsize) * 2 + (if loop then 1 else 0))).
 Definition hid_app (app k : Z) : Z := - (1002 + 4 * (64 * app + k)).
 
 (* asio::async_write(socket, buffer(data), h): write_some rounds of at most [chunk] bytes *)
 Definition start_write_all (cx : ctx) (s : Z) (data : list Z) (chunk h : Z) (w : net) : net * list kc :=
-  let w := w <| w_wall := mset (w_wall w) s (mkWall data 0 chunk h) |> in
+  let op := Z.of_nat (length (w_wall w)) in       (* a fresh operation: entries are never removed *)
+  let w := w <| w_wall := mset (w_wall w) op (mkWall s data 0 chunk h) |> in
   let (w, c0) := tcp_abort_send s w in
-  let (w, c1) := tcp_async_write_impl cx s [firstn (Z.to_nat chunk) data] (hid_wall s) w in
+  let (w, c1) := tcp_async_write_impl cx s [firstn (Z.to_nat chunk) data] (hid_wall op) w in
   (w, c0 ++ c1).
